@@ -231,6 +231,14 @@ T_PLAIN = TypeVar("T_PLAIN")
 T_BOUND = TypeVar("T_BOUND", bound=np.ndarray)
 T_CONS = TypeVar("T_CONS", np.ndarray, usercats.DuckArr)
 T_BOUND_ANN = TypeVar("T_BOUND_ANN", bound=Union[np.ndarray, usercats.DuckArr])
+try:  # PEP 696 defaults (typing_extensions builds genuine typing.TypeVar objects): a default says nothing about what the TypeVar may stand for
+    import typing_extensions as _te
+
+    T_PLAIN_DEFAULT = _te.TypeVar("T_PLAIN_DEFAULT", default=np.ndarray)
+    T_BOUND_DEFAULT = _te.TypeVar("T_BOUND_DEFAULT", bound=Union[np.ndarray, usercats.DuckArr], default=np.ndarray)
+    T_CONS_DEFAULT = _te.TypeVar("T_CONS_DEFAULT", np.ndarray, usercats.DuckArr, default=usercats.DuckArr)
+except Exception:  # noqa: BLE001
+    T_PLAIN_DEFAULT = T_BOUND_DEFAULT = T_CONS_DEFAULT = None
 
 
 def law_union_typevar(ctx, cat, spec, form):
@@ -259,6 +267,12 @@ def law_union_typevar(ctx, cat, spec, form):
         lhs, rhs = (lambda: D[T_BOUND, spec]), (lambda: D[A, spec])
     elif form == "tv-bound-union":
         lhs, rhs = (lambda: D[T_BOUND_ANN, spec]), (lambda: Union[D[A, spec], D[B, spec]])
+    elif form == "tv-plain-default":
+        lhs, rhs = (lambda: D[T_PLAIN_DEFAULT, spec]), (lambda: D[Any, spec])
+    elif form == "tv-bound-default":
+        lhs, rhs = (lambda: D[T_BOUND_DEFAULT, spec]), (lambda: Union[D[A, spec], D[B, spec]])
+    elif form == "tv-constrained-default":
+        lhs, rhs = (lambda: D[T_CONS_DEFAULT, spec]), (lambda: Union[D[A, spec], D[B, spec]])
     elif form == "tv-constrained":
         lhs, rhs = (lambda: D[T_CONS, spec]), (lambda: Union[D[A, spec], D[B, spec]])
     else:
@@ -335,6 +349,37 @@ def law_scalar(ctx, cat, sk, spec, rank0, in_union):
         raise Violation("S-law", case, f"array member of {ann!r} does not behave like {cat}[ndarray, {spec!r}]")
 
 
+def law_scalar_pair(ctx, cat, sk1, sk2, spec, rank0, with_array):
+    """Union of two Python scalar types (in this order), optionally with an array type: every scalar type survives or is dropped on
+    its own merits -- the order of the members and subclass relations between them (bool is a subclass of int) do not matter."""
+    D = getattr(jaxtyping, cat)
+    if cat not in dt.ABSTRACT:
+        return
+    ms_in = [SCALARS[sk1], SCALARS[sk2]] + ([np.ndarray] if with_array else [])
+    case = {"law": "S2", "cat": cat, "scalars": [sk1, sk2], "spec": spec, "with_array": with_array}
+    kind, ann = build(lambda: D[Union[tuple(ms_in)], spec])
+    survivors = {SCALARS[sk] for sk in (sk1, sk2) if rank0 and cat in dt.SCALAR_KIND[sk]}
+    ctx.note(case, len(survivors) == 1, classes=["law-S2", f"survivors-{len(survivors)}", f"built-{kind}"],
+             sample={"law": "scalar pair", "annotation": f"{cat}[Union[{sk1}, {sk2}{', ndarray' if with_array else ''}], {spec!r}]", "result": kind})
+    if kind == "other":
+        raise Violation("S-totality", case, f"raised {ann}")
+    if not survivors and not with_array:
+        if kind != "ValueError":
+            raise Violation("S-law", case, f"{cat}[Union[{sk1}, {sk2}], {spec!r}]: no member survives, expected ValueError, got {ann!r}")
+        return
+    if kind != "ok":
+        raise Violation("S-law", case, f"{cat}[Union[{sk1}, {sk2}{', ndarray' if with_array else ''}], {spec!r}] raised ValueError ({ann}); surviving scalar types should be {sorted(t.__name__ for t in survivors)}")
+    got = {m for m in members(ann) if m in SCALARS.values()}
+    if got != survivors:
+        raise Violation("S-law", case, f"{cat}[Union[{sk1}, {sk2}{', ndarray' if with_array else ''}], {spec!r}] = {ann!r}: scalar types kept {sorted(t.__name__ for t in got)}, "
+                                       f"should be {sorted(t.__name__ for t in survivors)}")
+    # and the verdicts on scalar probes follow
+    for v in (True, 3, 2.5, 1j):
+        want = "True" if any(isinstance(v, t) for t in survivors) else "False"
+        if accepts(ann, v) != want and not with_array:
+            raise Violation("S-law", case, f"isinstance({v!r}, {ann!r}) = {accepts(ann, v)}, expected {want}")
+
+
 # ---------------------------------------------------------------------------------------- law A
 def law_aliases(ctx):
     import jax
@@ -407,7 +452,8 @@ def run(ctx):
     ctx.hyp(nesting3, max_examples=ctx.n(120, 1200))
 
     @given(st.sampled_from(["Float", "Shaped", "Int", "Num", "Bool", "Float32", "UInt8", "Key"] + CATS), spec_st,
-           st.sampled_from(["Union-nested", "Union", "Union-rev", "bar", "bar-nested", "union3", "tv-plain", "tv-bound", "tv-bound-union", "tv-constrained"]))
+           st.sampled_from(["Union-nested", "Union", "Union-rev", "bar", "bar-nested", "union3", "tv-plain", "tv-bound", "tv-bound-union", "tv-constrained"]
+                           + (["tv-bound-default", "tv-plain-default", "tv-constrained-default"] if T_PLAIN_DEFAULT is not None else [])))
     def union_typevar(cat, toks, form):
         obs.reset_state()
         law_union_typevar(ctx, cat, dl.spec_spelling(toks), form)
@@ -420,6 +466,14 @@ def run(ctx):
             if i % ctx.nshards != ctx.shard:
                 continue
             law_scalar(ctx, cat, sk, spec, rank0, in_union)
+    except Violation as v:
+        ctx.record(v)
+    # ---- law S2: ordered pairs of scalar types
+    try:
+        for i, (cat, sk1, sk2, (spec, rank0), wa) in enumerate(itertools.product(CATS, SCALARS, SCALARS, RANK0[:5], (False, True))):
+            if sk1 == sk2 or i % ctx.nshards != ctx.shard:
+                continue
+            law_scalar_pair(ctx, cat, sk1, sk2, spec, rank0, wa)
     except Violation as v:
         ctx.record(v)
     # ---- law C: complete product (small)
@@ -448,6 +502,8 @@ def replay(case, clause, ctx):
         elif case.get("law") == "S":
             rank0 = dict(RANK0).get(case["spec"], False)
             law_scalar(ctx, case["cat"], case["scalar"], case["spec"], rank0, case["in_union"])
+        elif case.get("law") == "S2":
+            law_scalar_pair(ctx, case["cat"], case["scalars"][0], case["scalars"][1], case["spec"], dict(RANK0).get(case["spec"], False), case["with_array"])
         elif case.get("law") == "C":
             law_class(ctx, case["cat"], case["type"], case["spec"])
         else:
